@@ -26,31 +26,86 @@ import (
 )
 
 type itr struct {
-	p       *pkgInfo
-	errs    []string
-	fresh   int
-	recv    string // receiver variable name ("" for plain functions)
-	recvTp  string // Lean type of the receiver
-	hasRes  bool
-	structs map[string]bool // struct types translated in this module
-	opaque  map[string]bool // struct types kept opaque (fields no translated method touches)
-	maskNS  string          // namespace of the regenerated Mask methods
-	ns      string          // namespace of this module
-	externs map[string]string // "T.m" of methods kept uninterpreted -> Lean type of the function parameter
-	needExt map[string][]string // translated function -> extern parameters it takes
-	extOwner map[string]string  // extern parameter name -> "T.m"
-	tokens   map[string]bool    // struct types outside the module whose values only occur behind pointers: *T is a token
-	fieldExt map[string]string  // "T.field" of function-typed fields kept uninterpreted -> extern parameter name
-	tokExt   map[string]string  // "T.member" of token objects (fields / methods read through a pointer) -> extern parameter name
-	ifaceExt map[string]string  // interface method name -> extern parameter name (uninterpreted, first argument the value)
-	alias    map[string]ast.Expr // e := &<lvalue>: e stands for the lvalue
-	loopVar  string             // inside a loop body: the state variable the body function returns
-	inout    map[string][]int   // translated function -> indices of pointer parameters returned as results
-	retExtra []string           // names of the in-out parameters of the function being translated
-	relVar   map[string]string  // rf (from rf, ok := f.(*RelationFilter)) -> variable holding the optional target
-	view     map[string][]string // struct -> the fields that are translated (a view of a larger struct)
-	loopExtra []string          // outer locals a loop body assigns: part of the loop state
-	castVar  map[string]string  // cached (from cached, ok := f.(*CachedFilter)) -> variable holding the optional value
+	p         *pkgInfo
+	errs      []string
+	fresh     int
+	recv      string // receiver variable name ("" for plain functions)
+	recvTp    string // Lean type of the receiver
+	hasRes    bool
+	structs   map[string]bool     // struct types translated in this module
+	opaque    map[string]bool     // struct types kept opaque (fields no translated method touches)
+	maskNS    string              // namespace of the regenerated Mask methods
+	ns        string              // namespace of this module
+	externs   map[string]string   // "T.m" of methods kept uninterpreted -> Lean type of the function parameter
+	needExt   map[string][]string // translated function -> extern parameters it takes
+	extOwner  map[string]string   // extern parameter name -> "T.m"
+	tokens    map[string]bool     // struct types outside the module whose values only occur behind pointers: *T is a token
+	fieldExt  map[string]string   // "T.field" of function-typed fields kept uninterpreted -> extern parameter name
+	tokExt    map[string]string   // "T.member" of token objects (fields / methods read through a pointer) -> extern parameter name
+	ifaceExt  map[string]string   // interface method name -> extern parameter name (uninterpreted, first argument the value)
+	alias     map[string]ast.Expr // e := &<lvalue>: e stands for the lvalue
+	loopVar   string              // inside a loop body: the state variable the body function returns
+	inout     map[string][]int    // translated function -> indices of pointer parameters returned as results
+	retExtra  []string            // names of the in-out parameters of the function being translated
+	relVar    map[string]string   // rf (from rf, ok := f.(*RelationFilter)) -> variable holding the optional target
+	view      map[string][]string // struct -> the fields that are translated (a view of a larger struct)
+	loopExtra []string            // outer locals a loop body assigns: part of the loop state
+	castVar   map[string]string   // cached (from cached, ok := f.(*CachedFilter)) -> variable holding the optional value
+	effExt    map[string]string   // "T.method" of objects outside the module that change hidden state -> extern parameter name
+	usesEff   map[string]bool     // translated functions that thread the hidden state `ext`
+	curEff    bool                // the function being translated threads `ext`
+	pureFn    map[string]string   // package-level functions translated elsewhere as pure Lean functions
+	effInout  map[string][]int    // effectful externs: argument positions passed by pointer and written by the callee
+	aliasCall map[string]string   // "T.method" of a translated struct that returns &recv.field -> field
+}
+
+// stateful: an extern that reads an object outside the module; inside a function that threads the hidden
+// state it reads that state at the point of the call
+func (t *itr) stateful(ext string) bool {
+	return strings.HasPrefix(t.extOwner[ext], "tok.")
+}
+
+// tokCall renders the application of a token extern
+func (t *itr) tokCall(ext string, args []string) string {
+	if t.curEff && t.stateful(ext) {
+		return fmt.Sprintf("(%s ext %s)", ext, strings.Join(args, " "))
+	}
+	return fmt.Sprintf("(%s %s)", ext, strings.Join(args, " "))
+}
+
+// resolveAlias: `w.Cache()` is `&w.filterCache`
+func (t *itr) resolveAlias(e ast.Expr) (ast.Expr, bool) {
+	call, ok := e.(*ast.CallExpr)
+	if !ok || len(call.Args) != 0 {
+		return nil, false
+	}
+	sel, ok := call.Fun.(*ast.SelectorExpr)
+	if !ok {
+		return nil, false
+	}
+	rt := t.typeOf(sel.X)
+	if p, ok := rt.(*types.Pointer); ok {
+		rt = p.Elem()
+	}
+	nt, ok := rt.(*types.Named)
+	if !ok {
+		return nil, false
+	}
+	field, ok := t.aliasCall[nt.Obj().Name()+"."+sel.Sel.Name]
+	if !ok {
+		return nil, false
+	}
+	st, ok := nt.Underlying().(*types.Struct)
+	if !ok {
+		return nil, false
+	}
+	ns := &ast.SelectorExpr{X: sel.X, Sel: ast.NewIdent(field)}
+	for i := 0; i < st.NumFields(); i++ {
+		if st.Field(i).Name() == field {
+			t.p.info.Types[ns] = types.TypeAndValue{Type: st.Field(i).Type()}
+		}
+	}
+	return ns, true
 }
 
 func (t *itr) fail(format string, a ...interface{}) string {
@@ -298,7 +353,7 @@ func (t *itr) expr(e ast.Expr, pre *[]string) string {
 		}
 		if tn, ok := t.tokenOf(t.typeOf(x.X)); ok {
 			if ext, ok := t.tokExt[tn+"."+x.Sel.Name]; ok {
-				return fmt.Sprintf("(%s %s)", ext, t.expr(x.X, pre))
+				return t.tokCall(ext, []string{t.expr(x.X, pre)})
 			}
 			return t.fail("member %s of an object outside the module", tn+"."+x.Sel.Name)
 		}
@@ -524,6 +579,9 @@ func (t *itr) conv(to types.Type, arg ast.Expr, pre *[]string) string {
 
 // call translates a call; wantValue says whether the result is used.
 func (t *itr) call(x *ast.CallExpr, pre *[]string, wantValue bool) string {
+	if a, ok := t.resolveAlias(x); ok {
+		return t.expr(a, pre)
+	}
 	// conversion?
 	if tv, ok := t.p.info.Types[x.Fun]; ok && tv.IsType() && len(x.Args) == 1 {
 		return t.conv(tv.Type, x.Args[0], pre)
@@ -568,6 +626,13 @@ func (t *itr) call(x *ast.CallExpr, pre *[]string, wantValue bool) string {
 			}
 		case "panic":
 			return t.fail("panic in expression position")
+		}
+		if pf, ok := t.pureFn[id.Name]; ok {
+			args := []string{}
+			for _, a := range x.Args {
+				args = append(args, t.asInt(a, pre))
+			}
+			return fmt.Sprintf("(%s %s)", pf, strings.Join(args, " "))
 		}
 		// package-level function translated in this module
 		if _, ok := t.p.funcs[id.Name]; ok {
@@ -639,8 +704,26 @@ func (t *itr) call(x *ast.CallExpr, pre *[]string, wantValue bool) string {
 		}
 		return callS
 	}
+	if ext, ok := t.effExt[tn+"."+sel.Sel.Name]; ok && t.tokens[tn] {
+		// a method of an object outside the module that changes that object: the hidden state `ext`
+		// is threaded through the call
+		if !t.curEff {
+			return t.fail("effectful call %s.%s in a function that does not thread the hidden state", tn, sel.Sel.Name)
+		}
+		rv := t.tmp("r")
+		*pre = append(*pre, fmt.Sprintf("let (ext, %s) := %s ext %s", rv, ext, strings.Join(append([]string{recvVal}, args...), " ")))
+		if io := t.effInout[tn+"."+sel.Sel.Name]; len(io) > 0 {
+			// the callee writes through these pointer arguments: the extern returns their new values
+			if len(io) != 1 {
+				return t.fail("unsupported in-out shape of effectful extern %s", ext)
+			}
+			*pre = append(*pre, t.assignPath(x.Args[io[0]], rv, nil)...)
+			return "()"
+		}
+		return rv
+	}
 	if ext, ok := t.tokExt[tn+"."+sel.Sel.Name]; ok && t.tokens[tn] {
-		return fmt.Sprintf("(%s %s)", ext, strings.Join(append([]string{recvVal}, args...), " "))
+		return t.tokCall(ext, append([]string{recvVal}, args...))
 	}
 	if _, isExt := t.externs[tn+"."+sel.Sel.Name]; isExt {
 		// an uninterpreted function of its arguments (not of the receiver's state)
@@ -655,8 +738,15 @@ func (t *itr) call(x *ast.CallExpr, pre *[]string, wantValue bool) string {
 	}
 	hasRes := fd.Type.Results != nil && len(fd.Type.Results.List) > 0
 	extArgs := ""
+	if t.usesEff[tn+"."+sel.Sel.Name] {
+		return t.fail("call of a function that threads the hidden state: %s", tn+"."+sel.Sel.Name)
+	}
 	for _, e := range t.needExt[tn+"."+sel.Sel.Name] {
-		extArgs += " " + e
+		if t.curEff && t.stateful(e) {
+			extArgs += " (" + e + " ext)"
+		} else {
+			extArgs += " " + e
+		}
 	}
 	callS := fmt.Sprintf("%s.%s%s %s %s", tn, sel.Sel.Name, extArgs, recvVal, strings.Join(args, " "))
 	ptrRecv := false
@@ -718,6 +808,14 @@ func (t *itr) lvalue(e ast.Expr) (root string, steps []pathStep, ok bool) {
 		return t.lvalue(x.X)
 	case *ast.ParenExpr:
 		return t.lvalue(x.X)
+	case *ast.UnaryExpr:
+		if x.Op == token.AND {
+			return t.lvalue(x.X)
+		}
+	case *ast.CallExpr:
+		if a, ok := t.resolveAlias(x); ok {
+			return t.lvalue(a)
+		}
 	case *ast.SelectorExpr:
 		r, s, ok := t.lvalue(x.X)
 		return r, append(s, pathStep{field: x.Sel.Name}), ok
@@ -1521,6 +1619,7 @@ func (t *itr) emitFunc(sb *strings.Builder, goName string) {
 	t.relVar = nil
 	t.retExtra = nil
 	extraT := []string{}
+	t.curEff = t.usesEff[goName]
 	params := []string{}
 	addTP := func(tp *types.TypeParamList) {
 		for i := 0; tp != nil && i < tp.Len(); i++ {
@@ -1535,8 +1634,15 @@ func (t *itr) emitFunc(sb *strings.Builder, goName string) {
 		addTP(sig.RecvTypeParams())
 		addTP(sig.TypeParams())
 	}
+	if t.curEff {
+		params = append([]string{"{Ext : Type}"}, params...)
+	}
 	for _, e := range t.needExt[goName] {
-		params = append(params, fmt.Sprintf("(%s : %s)", e, t.externs[t.extOwner[e]]))
+		tp := t.externs[t.extOwner[e]]
+		if t.curEff && t.stateful(e) {
+			tp = "Ext → " + tp
+		}
+		params = append(params, fmt.Sprintf("(%s : %s)", e, tp))
 	}
 	if fd.Recv != nil {
 		r := fd.Recv.List[0]
@@ -1576,6 +1682,11 @@ func (t *itr) emitFunc(sb *strings.Builder, goName string) {
 			}
 			pi++
 		}
+	}
+	if t.curEff {
+		params = append(params, "(ext : Ext)")
+		t.retExtra = append(t.retExtra, "ext")
+		extraT = append(extraT, "Ext")
 	}
 	resT := ""
 	if fd.Type.Results != nil {
@@ -1635,13 +1746,22 @@ func genPools(repo string, tiny bool) (string, []string) {
 	t.extOwner = map[string]string{"isRelationF": "componentRegistry.isRelation", "getArchetypesF": "Cache.getArchetypes",
 		"isCachedFilterF": "assert.CachedFilter"}
 	t.fieldExt = map[string]string{"Cache.getArchetypes": "getArchetypesF"}
-	t.tokens = map[string]bool{"archetype": true, "archNode": true}
-	t.view = map[string][]string{"World": {"nodePointers", "filterCache"}}
+	t.tokens = map[string]bool{"archetype": true, "archNode": true, "pagedSlice": true}
+	t.effExt = map[string]string{"archetype.Alloc": "archAllocF", "archNode.Reset": "nodeResetF"}
+	t.effInout = map[string][]int{"archNode.Reset": {0}}
+	t.aliasCall = map[string]string{"World.Cache": "filterCache"}
+	t.usesEff = map[string]bool{"World.LoadEntities": true, "World.Reset": true}
+	t.pureFn = map[string]string{"capacity": "ArcheGen.Arith.capacity"}
+	for _, n := range []string{"EntityDump", "entityIndex", "Config"} {
+		t.structs[n] = true
+	}
+	t.view = map[string][]string{"World": {"nodePointers", "filterCache", "locks", "entityPool", "resources", "entities", "targetEntities", "archetypes", "nodes", "config"},
+		"Config": {"CapacityIncrement", "RelationCapacityIncrement"}}
 	t.structs["World"] = true
 	t.tokExt = map[string]string{"archetype.Mask": "archMaskF", "archetype.RelationTarget": "archTargetF", "archetype.HasRelation": "archHasRelationF"}
 	t.ifaceExt = map[string]string{"Matches": "matchesF", "Len": "archsLenF", "Get": "archsGetF"}
 	for k, v := range map[string]string{"archNode.IsActive": "nodeActiveF", "archNode.Matches": "nodeMatchesF", "archNode.HasRelation": "nodeHasRelationF",
-		"archNode.archetypeMap": "nodeArchMapF", "archNode.Archetypes": "nodeArchetypesF", "archetype.IsActive": "archActiveF"} {
+		"archNode.archetypeMap": "nodeArchMapF", "archNode.Archetypes": "nodeArchetypesF", "archetype.IsActive": "archActiveF", "pagedSlice.Get": "pagedGetF", "pagedSlice.Len": "pagedLenF"} {
 		t.tokExt[k] = v
 	}
 	for k, v := range map[string][2]string{
@@ -1649,7 +1769,10 @@ func genPools(repo string, tiny bool) (string, []string) {
 		"nodeHasRelationF": {"tok.nodeHasRelation", "Option Nat → Bool"}, "nodeArchMapF": {"tok.nodeArchMap", "Option Nat → Entity → Option (Option Nat)"},
 		"nodeArchetypesF": {"tok.nodeArchetypes", "Option Nat → GoAny"}, "archActiveF": {"tok.archActive", "Option Nat → Bool"},
 		"archsLenF": {"iface.Len", "GoAny → BitVec 32"}, "archsGetF": {"iface.Get", "GoAny → BitVec 32 → Option Nat"},
-		"asCachedFilterF": {"assert.CachedFilterValue", "GoAny → Option CachedFilter"}} {
+		"asCachedFilterF": {"assert.CachedFilterValue", "GoAny → Option CachedFilter"},
+		"pagedGetF":       {"tok.pagedGet", "Nat → BitVec 32 → Option Nat"}, "pagedLenF": {"tok.pagedLen", "Nat → BitVec 32"},
+		"nodeResetF": {"eff.nodeReset", "Ext → Option Nat → Cache → Ext × Cache"},
+		"archAllocF": {"eff.archAlloc", "Ext → Option Nat → Entity → Ext × BitVec 32"}} {
 		t.extOwner[k] = v[0]
 		t.externs[v[0]] = v[1]
 	}
@@ -1670,13 +1793,13 @@ func genPools(repo string, tiny bool) (string, []string) {
 	t.opaque = map[string]bool{}
 	t.structs["componentRegistry"] = true
 	var sb strings.Builder
-	fmt.Fprintf(&sb, "/- GENERATED by /verif/extract (imperative translator) from the Go source of /repo — do not edit. -/\nimport %s\nset_option linter.unusedVariables false\nnamespace %s\nopen ArcheGen\n\n", imp, ns)
+	fmt.Fprintf(&sb, "/- GENERATED by /verif/extract (imperative translator) from the Go source of /repo — do not edit. -/\nimport %s\nimport ArcheGen.Arith\nset_option linter.unusedVariables false\nnamespace %s\nopen ArcheGen\n\n", imp, ns)
 	if o := ecs.pkg.Scope().Lookup("MaskTotalBits"); o != nil {
 		if k, ok := o.(*types.Const); ok {
 			fmt.Fprintf(&sb, "def MaskTotalBits : Nat := %s\n\n", k.Val().ExactString())
 		}
 	}
-	for _, s := range []string{"Entity", "entityPool", "bitPool", "lockMask", "componentRegistry", "Resources", "bitSet", "idMap", "intPool", "pointers", "CachedFilter", "cacheEntry", "Cache", "World"} {
+	for _, s := range []string{"Entity", "entityPool", "bitPool", "lockMask", "componentRegistry", "Resources", "bitSet", "idMap", "intPool", "pointers", "CachedFilter", "cacheEntry", "Cache", "Config", "entityIndex", "EntityDump", "World"} {
 		t.emitStruct(&sb, s)
 	}
 	funcs := []string{
@@ -1692,7 +1815,7 @@ func genPools(repo string, tiny bool) (string, []string) {
 		"newComponentRegistry", "componentRegistry.ComponentType", "componentRegistry.Count", "componentRegistry.registerComponent",
 		"componentRegistry.ComponentID", "componentRegistry.unregisterLastComponent",
 		"Cache.Register", "Cache.Unregister", "Cache.get", "Cache.mapArchetypes", "Cache.addArchetype", "Cache.removeArchetype",
-		"World.getArchetypes",
+		"World.getArchetypes", "World.IsLocked", "World.lock", "World.unlock", "World.checkLocked", "World.Alive", "World.LoadEntities", "World.Reset",
 	}
 	// which functions need the uninterpreted-function parameters (directly or through a callee)
 	calls := map[string][]string{}
